@@ -45,8 +45,11 @@ Dedup(seq) == IF seq = <<>> THEN <<>>
                    IF x \in RangeOf(d) THEN d ELSE Append(d, x)
 Dups(seq) == {seq[k] : k \in {j \in 1 .. Len(seq) : \E m \in 1 .. j - 1 : seq[m] = seq[j]}}
 
-GroupVerdict(w, s, hist, groups, g) ==
+GroupVerdict(w0, s0, hist, groups, g) ==
   LET grp == groups[g]
+      pr == ForKs(w0, s0, grp.ks)     \* the statement's keyspace: the session's or the second one
+      w == pr[1]
+      s == pr[2]
       cx == QCtx(w, s, grp.q)
       n == Len(grp.picks)
       base == s.npicks + PicksBefore(groups, g)
@@ -73,7 +76,7 @@ GroupVerdict(w, s, hist, groups, g) ==
       drift == (IF ~amb /\ ~overlapped /\ \E i \in 1 .. n : Rest(cx, grp.picks[i]) # Rest(cx, Offer(w, s, cx, base + i)) THEN {"order"} ELSE {}) \cup
                (IF \E i \in 1 .. n : \E k \in 1 .. Len(grp.picks[i]) : grp.picks[i][k] # 0 /\ grp.picks[i][k] \notin known
                 THEN {"offers-unknown-host"} ELSE {})
-  IN [g |-> g, q |-> grp.q, kinds |-> kinds, drift |-> drift,
+  IN [g |-> g, q |-> grp.q, ks |-> grp.ks, kinds |-> kinds, drift |-> drift,
       realdup |-> realdup, kinds2 |-> kinds2, realrep |-> grp.realrep,
       stored |-> IF realdup THEN {} ELSE StoredKinds(w, s, grp.q, grp.realrep),
       placement |-> IF cx.ta THEN Placement(w, s, grp.q) ELSE <<>>,
